@@ -416,9 +416,20 @@ def r037(an, rep):
             if isinstance(n, ast.While) and isinstance(n.test, ast.Name):
                 enc = (g, n)
     if enc is None:
+        # a loop that re-lays out the blocks but is bounded by a constant instead of running until nothing changed
+        for g in an.closure("to_code"):
+            for n in g.node.body:
+                if isinstance(n, ast.For) and any(isinstance(x, ast.Call) and isinstance(x.func, ast.Name) and x.func.id == sf.name for x in ast.walk(n)) \
+                        and any(isinstance(x, ast.Assign) and isinstance(x.value, ast.Constant) and x.value.value is True for x in ast.walk(n)) \
+                        and isinstance(n.iter, ast.Call) and isinstance(n.iter.func, ast.Name) and n.iter.func.id == "range":
+                    rep.add("R03.7", f"{g.qual}::re-layout is iterated until no jump changes size", False, loc(g.module, n),
+                            f"the re-layout loop is `for ... in {norm_src(n.iter)}`: a fixed number of rounds. A widening jump can push another jump over its size boundary, which pushes "
+                            f"the next one, and so on; when the rounds run out the operands were computed for widths that are no longer the ones emitted, so jumps land off their targets")
+                    return
         raise AnalysisError("relaxation loop (`while <flag>:`) not found in the encoder")
     g, wl = enc
     flag = wl.test.id
+    rep.add("R03.7", f"{g.qual}::re-layout is iterated until no jump changes size", True, loc(g.module, wl), f"`while {flag}:` - the loop runs until a whole pass leaves every jump's size unchanged", nontrivial=False)
     # placeholder for jumps sizes to one unit
     disp = None
     for h in an.closure("to_code"):
